@@ -288,6 +288,28 @@ class C20:
         finally:
             pool.close()
             pool.join()
+        # ---- a history of *files*: another ballot file read earlier under the same path must not matter
+        import tempfile
+        fd, fpath = tempfile.mkstemp(suffix='.blt')
+        os.close(fd)
+        try:
+            names = sorted(PROFILES)
+            for a in names:
+                for b in names:
+                    if a == b:
+                        continue
+                    ntrans += 1
+                    with open(fpath, 'w') as f:
+                        f.write(PROFILES[a])
+                    ElectionProfile(path=fpath)
+                    with open(fpath, 'w') as f:
+                        f.write(PROFILES[b])
+                    got = profile_sig(ElectionProfile(path=fpath))
+                    if got != profile_sig(ElectionProfile(data=PROFILES[b])):
+                        viol.setdefault('C20|profile|file-history-dependence',
+                                        ('reading %s from a path from which %s was read before gives a different profile' % (b, a), [], None))
+        finally:
+            os.unlink(fpath)
         # ---- binding: replay histories in fresh subprocesses
         keys = [k for k in states if k != ikey]
         keys.sort(key=lambda k: (-states[k]['depth'], k))
@@ -316,6 +338,14 @@ class C20:
         nviol = 0
         for sig in sorted(viol):
             msg, hist, li = viol[sig]
+            if li is None:      # file-history check: confirmed inline, no letter history
+                case = {'tier': tier, 'file_history': True}
+                if sig not in known:
+                    nviol += 1
+                    print('violation: %s :: %s' % (sig, msg))
+                    lines.append('VIOLATION property=%s replay=%s' % (PID, driver.write_replay(PID, sig, msg, case)))
+                    code = 1
+                continue
             case = {'tier': tier, 'history': [list(L[h]) for h in hist], 'letter': list(L[li])}
             if not self.confirm(case):
                 print('HARNESS ERROR: violation %s did not reproduce in fresh subprocesses' % sig)
